@@ -222,6 +222,7 @@ class Execution:
         self.foreign_cbs = 0
         self.finished = False
         self.params_changed = []
+        self.int_rhos = []
 
     def log(self, ev):
         self.events.append(ev)
@@ -280,6 +281,24 @@ class Execution:
             d.add("end", self.status, int(r.iterations), int(r.num_accepted_steps), r.x.tobytes(), r.y.tobytes(), r.d.tobytes())
         else:
             d.add("end-exc", self.outcome)
+        return d.hex()
+
+    def result_digest(self):
+        """Everything the SolverResult carries as data, including the collected path."""
+        d = Digest()
+        r = self.result
+        if r is None:
+            d.add("none", self.outcome)
+            return d.hex()
+        d.add("res", str(r.status), int(r.iterations), int(r.num_accepted_steps), np.asarray(r.x).tobytes(), np.asarray(r.y).tobytes(), np.asarray(r.d).tobytes())
+        try:
+            path, times = r.path, r.model_times
+        except Exception:  # noqa
+            path, times = None, None
+        if path is None:
+            d.add("nopath")
+        else:
+            d.add("path", repr(tuple(int(v) for v in np.shape(path))), np.ascontiguousarray(path).tobytes(), np.ascontiguousarray(times).tobytes())
         return d.hex()
 
     def full_digest(self):
@@ -407,6 +426,21 @@ def execute(world, *, problem=None, solver=None, params=None, reuse_solver=False
                 # progress of the integration solver at each clock read: completed integrations
                 # (= path segments beyond the start column; needs collect_path)
                 clock.probe = lambda _s=solver: (len(_s.path) - 1) if getattr(_s, "path", None) else 0
+                # the penalty each integration leg uses (seam: the public method perform_integration)
+                try:
+                    _pi = solver.perform_integration
+                    _pi_sig = inspect.signature(_pi)
+
+                    def _logged_integration(*a, _pi=_pi, _sig=_pi_sig, _ex=ex, **k):
+                        try:
+                            _ex.int_rhos.append(float(_sig.bind(*a, **k).arguments["rho"]))
+                        except Exception:  # noqa
+                            _ex.int_rhos.append(float(getattr(solver, "rho", float("nan"))))
+                        return _pi(*a, **k)
+
+                    solver.perform_integration = _logged_integration
+                except AttributeError:
+                    pass
             elif params == "default":
                 solver = RecordingSolver(problem)
                 ex.params = solver.params
